@@ -100,6 +100,7 @@ func main() {
 	// round 3: the cgo build of the statesql drive runs while everything else is evaluated
 	sqlB := startSQLBuild(run, repo)
 	sqlScs := sqlScenarios(run)
+	slotB := startSlotBuild(run, repo)
 	chkB := startSqlcheckBuild(run, repo)
 	chkCorpus := sqlcheckCorpus(run)
 
@@ -328,6 +329,8 @@ func main() {
 	sqlDrive(run, sqlB, sqlScs)
 	// ------------------------------------------------------------------ the keyword gate of db.query, against SQLite itself
 	sqlcheckDrive(run, chkB, chkCorpus)
+	// ------------------------------------------------------------------ the context slots, on the real code
+	slotDrive(run, slotB)
 	run.SetExhaustive(true)
 }
 
